@@ -672,3 +672,5 @@ Definition oracle_of_rpm (no_chain : bool) (n : nat) (seen nosigner : nat -> boo
   mkO (fun _ _ => 0)
       (fun k path => match k with 0 => Nat.eqb n 0 | 1 => seen (head_or0 path) | 2 => nosigner (head_or0 path) | _ => false end)
       (fun _ _ => n) (fun f => match f with 5 => no_chain | _ => false end) (fun _ => false).
+(* SPEC: the i-th signature is acceptable when it repeats a key already seen, its signer is in the keyring, or trust checking is off *)
+Definition rpm_sig_ok (no_chain : bool) (seen nosigner : nat -> bool) (i : nat) : bool := seen i || negb (nosigner i) || no_chain.
